@@ -763,3 +763,18 @@ pub fn block(g: &mut G) -> Block {
     Block::new(&g.nest(header), &tb, &ws, &ad, inv)
 }
 pub fn unspent_output(g: &mut G) -> TransactionUnspentOutput { TransactionUnspentOutput::new(&tx_input(g), &g.nest(tx_output)) }
+
+// ---------- list wrappers and stand-alone native-script members ----------
+pub fn script_pubkey(g: &mut G) -> ScriptPubkey { ScriptPubkey::new(&keyhash(g)) }
+pub fn script_all(g: &mut G) -> ScriptAll { g.ndepth += 1; let (n, rep) = fill(g); let s = native_scripts_n(g, n.min(4), rep); g.ndepth -= 1; ScriptAll::new(&s) }
+pub fn script_any(g: &mut G) -> ScriptAny { g.ndepth += 1; let (n, rep) = fill(g); let s = native_scripts_n(g, n.min(4), rep); g.ndepth -= 1; ScriptAny::new(&s) }
+pub fn script_n_of_k(g: &mut G) -> ScriptNOfK { g.ndepth += 1; let (n, rep) = fill(g); let s = native_scripts_n(g, n.min(4), rep); g.ndepth -= 1; ScriptNOfK::new(g.u32(), &s) }
+pub fn timelock_start(g: &mut G) -> TimelockStart { if g.pick(2) == 0 { TimelockStart::new_timelockstart(&g.bn()) } else { TimelockStart::new(g.u32()) } }
+pub fn timelock_expiry(g: &mut G) -> TimelockExpiry { if g.pick(2) == 0 { TimelockExpiry::new_timelockexpiry(&g.bn()) } else { TimelockExpiry::new(g.u32()) } }
+pub fn asset_names(g: &mut G) -> AssetNames { let (n, rep) = fill(g); let mut l = AssetNames::new(); let mut last = None; for i in 0..n { let x = if rep && i % 2 == 1 { last.clone().unwrap() } else { asset_name(g) }; l.add(&x); last = Some(x); } l }
+pub fn genesis_hashes(g: &mut G) -> GenesisHashes { let (n, _) = fill(g); let mut l = GenesisHashes::new(); for _ in 0..n { l.add(&GenesisHash::from_bytes(g.bytes(28)).unwrap()); } l }
+pub fn script_hashes(g: &mut G) -> ScriptHashes { let (n, _) = fill(g); let mut l = ScriptHashes::new(); for _ in 0..n { l.add(&scripthash(g)); } l }
+pub fn reward_addresses(g: &mut G) -> RewardAddresses { let (n, _) = fill(g); let mut l = RewardAddresses::new(); for _ in 0..n { l.add(&g.nest(reward_address)); } l }
+pub fn metadatum_labels(g: &mut G) -> TransactionMetadatumLabels { let (n, _) = fill(g); let mut l = TransactionMetadatumLabels::new(); for _ in 0..n { l.add(&g.bn()); } l }
+pub fn bignum(g: &mut G) -> BigNum { g.bn() }
+pub fn versioned_block(g: &mut G) -> VersionedBlock { let era = match g.pick(3) { 0 => g.below(10) as u32, 1 => 7, _ => g.u32() }; VersionedBlock::new(g.nest(block), era) }
